@@ -190,4 +190,21 @@ Proof.
     + apply STEP. destruct Hspan; [assumption|contradiction].
 Qed.
 
+Lemma next_fix_bounds i span : u_b (u_next_fix P D var chunk i span) = u_b i.
+Proof.
+  unfold u_next_fix. destruct (at_end i); [reflexivity|].
+  destruct (span =? AUTO).
+  - unfold auto_next_span. destruct (stamp P (t_e (u_view i)) chunk false); [|reflexivity].
+    apply (step_fwd_view i).
+  - apply (step_fwd_view i).
+Qed.
+Lemma prev_fix_bounds i span : u_b (u_prev_fix P D var chunk i span) = u_b i.
+Proof.
+  unfold u_prev_fix. destruct (at_start i); [reflexivity|].
+  destruct (span =? AUTO).
+  - unfold auto_prev_span. destruct (stamp P (t_s (u_view i)) (- chunk) false); [|reflexivity].
+    apply (step_bwd_view i).
+  - apply (step_bwd_view i).
+Qed.
+
 End Views.
